@@ -116,25 +116,25 @@ type itemObs struct {
 type observation map[string]*itemObs
 
 type env struct {
-	w      *world.World
-	r      *report.Run
-	queues []string
-	tq     string
-	keys   map[string]*ecdsa.PrivateKey // address hex -> key
-	orig   []string                     // validator -> address of the genesis-registered key
-	alt    []string                     // validator -> address of its second key
-	names  map[string]string            // val address / acc address (bech32) -> validator name
-	gases  []uint64
-	hostil int // number of validators for which the invalid kinds are enumerated
-	recov  map[string]string
-	token  skywaytypes.EthAddress
-	end    func(ctx sdk.Context) error
-	shard  int
-	quiet  bool
+	w        *world.World
+	r        *report.Run
+	queues   []string
+	tq       string
+	keys     map[string]*ecdsa.PrivateKey // address hex -> key
+	orig     []string                     // validator -> address of the genesis-registered key
+	alt      []string                     // validator -> address of its second key
+	names    map[string]string            // val address / acc address (bech32) -> validator name
+	gases    []uint64
+	hostil   int // number of validators for which the invalid kinds are enumerated
+	recov    map[string]string
+	token    skywaytypes.EthAddress
+	end      func(ctx sdk.Context) error
+	shard    int
+	quiet    bool
 	scenario string
-	sigmemo map[string][]byte
-	txmemo  map[string]sdk.Tx
-	btsmemo map[string][]byte
+	sigmemo  map[string][]byte
+	txmemo   map[string]sdk.Tx
+	btsmemo  map[string][]byte
 }
 
 func must(err error) {
@@ -157,6 +157,7 @@ func addrOf(k *ecdsa.PrivateKey) string { return ethcrypto.PubkeyToAddress(k.Pub
 
 func run(r *report.Run, shard, nshards int, replayFile string) {
 	debug.SetGCPercent(200)
+	debug.SetMemoryLimit(1400 << 20) // soft: the collector works harder near it, nothing fails
 	w := world.New(world.Config{Stakes: world.StakesOf(1_000_000, 1_000_000, 1_000_000), Users: []string{"adm", "U1"}, Height: 101})
 	ctx := w.Root
 	must(w.StdChain(ctx, ref))
@@ -235,14 +236,16 @@ func run(r *report.Run, shard, nshards int, replayFile string) {
 		panic(fmt.Sprintf("scenario set-up incomplete: %v", kinds))
 	}
 
-	r.Rule = "BFS over Sign(v,m,kind) / Estimate(v,m,g) / EndCons (module-manager end-block: estimate election, fee attachment by in-place replacement) / Confirm(v,b,kind) / EstBatch(v,b,g) / EndSky (skyway end-blocker: election, checkpoint recomputed) / ReRegister(v,key) with kind in {valid, garbage, other validator's key under own address, other validator's key and address, duplicate, signature over the item's previous bytes, own previous key}; every transition is a really signed tx through ante + router or a real end-blocker; in every state each stored signature / batch confirm is recovered with go-ethereum SigToPub over the item's current signing bytes; a state is distinct by (consensus, skyway, valset stores, ghost)"
+	r.Rule = "four BFS scenarios (operations on the SubmitLogicCall only / the UpdateValset only / the batch only / all three), each from the set-up state and from a seeded state where two of three validators have already estimated the scenario's items; alphabet Sign(v,m,kind) / Estimate(v,m,g) / EndCons (module-manager end-block: estimate election, fee attachment by in-place replacement) / Confirm(v,b,kind) / EstBatch(v,b,g) / EndSky (skyway end-blocker: election, checkpoint recomputed) / ReRegister(v,key: own first, own second, first key of the previous validator, the previous validator's current or former key spelled differently (lower-case address, zero-padded 32-byte Pubkey)) with kind in {valid, garbage, other validator's key under own address, other validator's key and address, duplicate, signature over the item's previous bytes, own previous key}; every transition is a really signed tx through ante + router or a real end-blocker; in every state each stored signature / batch confirm is recovered with go-ethereum SigToPub over the item's current signing bytes; a state is distinct by (consensus, skyway, valset stores, ghost)"
 	r.Assumptions = []string{
 		"tx atomicity re-implemented as in baseapp.runTx (ante cache, msg cache)",
 		"height and time are fixed at 101 (only h mod 10/50/300 and batch time-outs are read by the explored code; none of them fires)",
 		"a compass-id change while a batch is open, snapshot rebuilds and message re-assignment (ReassignOrphanedMessages has no caller in the application) are outside the alphabet",
 		"registered Pubkey is the 20-byte address of the registered key (what StdChain and pigeon register) or, in the alias registration, the same address zero-padded to 32 bytes; the stored PublicKey of a signature is read the way the queue reads it (last 20 bytes)",
 		"signature byte V is accepted as 0/1 or 27/28 for batch confirms (representation, as skyway's EthAddressFromSignature)",
-		"quick tier: invalid signature kinds are enumerated for validator v0 only and one gas value; thorough: all validators, two gas values",
+		"quick tier: invalid signature kinds and alias registrations are enumerated for validator v0 only and one gas value; thorough: all validators, two gas values",
+		"per-item scenarios assume that operations on one queued item do not influence how another item's signatures are handled; the all-items scenario checks the combination to a smaller depth",
+		"each scenario has a slice of the time budget and at most 80000 states per worker; what was cut is listed in caps_hit and depth_completed",
 	}
 	start := time.Now()
 	deadline := r.Deadline(150*time.Second, 23*time.Minute)
@@ -304,7 +307,7 @@ func run(r *report.Run, shard, nshards int, replayFile string) {
 			fmt.Sscanf(s, "%d", &d)
 		}
 		specs = append(specs, explore.Spec{Name: sc.name, Init: init, Ops: ops, Hash: hash, Invariant: e.invariant,
-			MaxDepth: d, Deadline: start.Add(time.Duration(float64(deadline.Sub(start)) * sc.until)), MaxStates: 120_000,
+			MaxDepth: d, Deadline: start.Add(time.Duration(float64(deadline.Sub(start)) * sc.until)), MaxStates: 80_000,
 			ShardDepth: 2, Shard: shard, NShards: nshards})
 	}
 	if replayFile != "" {
@@ -607,7 +610,8 @@ func (e *env) step(label string, oc opCtx, f func(ctx sdk.Context, g *ghost) (st
 		after := e.observe(*ctx)
 		g.obs = after
 		changed := ""
-		for key, a := range after {
+		for _, key := range sortedKeys(after) {
+			a := after[key]
 			b, ok := before[key]
 			if !ok || bytes.Equal(a.Bytes, b.Bytes) {
 				continue
